@@ -31,6 +31,11 @@ pub fn run(harness: &str, vals: Vec<Vec<u8>>) -> i32 {
         "k4_ieee64_from_float_bits" => bodies::k4_ieee64_from_float_bits(&mut s),
         "k4_v128_bytes_preserved" => bodies::k4_v128_bytes_preserved(&mut s),
         "k4_initexpr_numeric_const_matches_upstream" => bodies::k4_initexpr_numeric_const_matches_upstream(&mut s),
+        "k5_initexpr_index_instr_roundtrip" => bodies::k5_initexpr_index_instr_roundtrip(&mut s),
+        "k5_initexpr_ref_null_roundtrip" => bodies::k5_initexpr_ref_null_roundtrip(&mut s),
+        "k5_initexpr_index_instr_matches_spec" => bodies::k5_initexpr_index_instr_matches_spec(&mut s),
+        "k5_spec_global_get" => bodies::k5_initexpr_index_instr_matches_spec_of(0, &mut s),
+        "k5_spec_ref_func" => bodies::k5_initexpr_index_instr_matches_spec_of(1, &mut s),
         _ => { println!("unknown harness {harness}"); return 2; }
     };
     match r {
